@@ -13,7 +13,7 @@ pub static DEF: PropDef = PropDef {
     level: "exploration",
     engine: "cluster",
     rule: "one run = a real NodeRegistry (30 s heartbeat timeout, run_health_checks task on the virtual clock), ShardAssignment (one of the three strategies) and DistributedWriteRouter driven through a generated history of 8..30 events (register ingester/query/combined node, heartbeat, stop heartbeating, drain, load change incl. >=95%, remove, rebalance, virtual pauses of 0..40 s) with route_write for 1..4 shard ids after every event, each call under a 1000-poll budget; distinct = distinct hash of (strategy, event history); non-trivial = completed AND at least one node turned ineligible while it had a shard assigned",
-    quick_runs: 8000,
+    quick_runs: 20000,
     thorough_runs: 200_000,
     run_cap_ms: 20_000,
     scen,
